@@ -44,7 +44,8 @@ Value& ABSExpression::value(Context & ctx) const
     if (val.isNull())
       return val;
     Integer l = *val.integer();
-    v = Value(Integer(l < 0 ? -l : l));
+    /* -INT64_MIN overflows: wrap modulo 2^64 like the unary minus does */
+    v = Value(Integer(l < 0 ? Integer(0 - uint64_t(l)) : l));
     break;
   }
   case Type::NUMERIC:
